@@ -13,9 +13,10 @@ CONSTANTS
   AllowWindow = FALSE
   StartStates = {"empty", "data", "ownsnap", "data+ownsnap"}
   OtherAtStart = {TRUE, FALSE}
+  ReceiveOnly = FALSE
   MaxForce = 0
   OnlyOnce = TRUE
 SPECIFICATION Spec
-INVARIANTS TypeOK NoLocalLoss PublishedWhenIdle ReadyMeansLoaded ReadyMeansPublished ExitOnlyWhenDone
+INVARIANTS TypeOK NoLocalLoss PublishedWhenIdle ReadyMeansLoaded ReadyMeansPublished ExitOnlyWhenDone ReceiveOnlyStoresNothing
 PROPERTIES CommittedOnlyAfterStore LSNeverBackwards NoEchoUpload NoUploadBeforeOwnMerged BucketMonotone ReadyStable ForcedWhenDue
 CHECK_DEADLOCK FALSE
